@@ -125,7 +125,7 @@ def generate(seed, tier, batch):
     # invalid operations: (segment index after which / inside which they are attempted)
     invalid = []
     for _ in range(r.choice([0, 1, 1, 2, 3])):
-        kind = r.choice(["fe_dead", "fe_unknown", "fe_dup", "fe_del_dead", "bad_successor", "raw_dead", "raw_unknown", "raw_del_dead"])
+        kind = r.choice(["fe_dead", "fe_unknown", "fe_dup", "fe_del_dead", "bad_successor", "indep_successor", "indep_successor", "raw_dead", "raw_unknown", "raw_del_dead"])
         invalid.append({"kind": kind, "after_seg": r.randrange(nseg), "pick": r.random(), "op": r.choice(["Dgate", "Rgate", "BSgate", "MeasureX", "LossChannel"])})
     script = {"backend": backend, "opts": opts, "segs": segs, "call": r.choice(["list", "seq"]), "invalid": invalid,
               "reset_between": r.random() < 0.25, "subset_state": r.random() < 0.3, "tape": seed}
@@ -448,6 +448,37 @@ def invalid_ops(script, w, simenv, eng, progs, model, seg_index, feats, rejected
                     eng.run(p)
                 except Exception as ex:  # noqa
                     raised = ex
+            elif kind == "indep_successor":
+                # a successor written independently (Program(n) instead of Program(prev)) for a register whose live modes are 0..n-1 but
+                # which has deleted indices above them.  Either it is refused, or - if accepted - creating a mode in it must still give
+                # the next never-used index on both sides (a mode keeps its index for life, register and simulator agree).
+                if alive != list(range(len(alive))) or not dead:
+                    continue
+                p = sf.Program(len(alive))
+                with p.context as q:
+                    (newmode,) = sfops.New(1)
+                    sfops.Coherent(0.31, 0.7) | newmode
+                what = "independent Program(%d) after a history with deleted indices %s" % (len(alive), dead)
+                w.fault("invalid_op:" + kind)
+                try:
+                    res2 = eng.run(p)
+                except Exception as ex:  # noqa
+                    rejected[0] += 1
+                    w.log("rejected", what=kind, exc=type(ex).__name__)
+                    # refused: nothing may have changed
+                    if [int(x) for x in eng.backend.get_modes()] != [int(x) for x in modes_before]:
+                        w.violation("invalid-rejected", "mode-set-changed", {"what": what}, feats + ["kind=" + kind])
+                        return False
+                    continue
+                w.probes["independent_successor_accepted"] += 1
+                reg = [r_.ind for r_ in p.register]
+                sim = [int(x) for x in eng.backend.get_modes()]
+                want = alive + [model.nxt]
+                if reg != sim or sim != want:
+                    w.violation("mode-set", "independent-successor-then-New", {"what": what, "Program.register": reg, "backend.get_modes": sim, "never-reused-index-rule": want},
+                                feats + ["kind=" + kind])
+                    return False
+                return True  # the engine has moved on; later scheduled invalid ops of this segment are skipped
             elif kind.startswith("raw_"):
                 be = eng.backend
                 if kind == "raw_dead":
